@@ -656,6 +656,7 @@ func (c *FnCtx) stdModel(fr *frame, st *State, site ssa.Instruction, name string
 		if h := c.prof.lockHook; h != nil {
 			h(c, fr, st, name, cc)
 		}
+		c.mutexModel(fr, st, name, cc)
 		return c.noopCall(st, cc.Signature()), true
 	case strings.HasPrefix(name, "time."), strings.HasPrefix(name, "runtime."), strings.HasPrefix(name, "math."), strings.HasPrefix(name, "strings."), strings.HasPrefix(name, "os."), strings.HasPrefix(name, "errors."):
 		return c.noopCall(st, cc.Signature()), true
@@ -687,4 +688,37 @@ func stdWriteSet(c *FnCtx, name string, cc *ssa.CallCommon) ([]string, bool) {
 		return c.storeRegions(cc.Args[0]), true
 	}
 	return nil, false
+}
+
+
+// mutexModel: when the profile's prelude declares the ghosts mu (Array Int Bool: mutex held exclusively) and
+// optionally rmu (Array Int Int: number of read holds), sync.Mutex / sync.RWMutex calls update them; unlocking
+// a mutex that is not held is an obligation.
+func (c *FnCtx) mutexModel(fr *frame, st *State, name string, cc *ssa.CallCommon) {
+	reg, ok := c.ghostRegion("mu")
+	if !ok || len(cc.Args) == 0 {
+		return
+	}
+	m := c.val(fr, cc.Args[0]).S
+	method := name[strings.LastIndex(name, ".")+1:]
+	cur := c.get(st, reg)
+	switch method {
+	case "Lock":
+		c.set(st, reg, fmt.Sprintf("(store %s %s true)", cur, m))
+	case "Unlock":
+		c.oblige("lock", "unlock-held@"+shortPos(c.curPos), st.g, fmt.Sprintf("(select %s %s)", cur, m), "Unlock of a mutex this function does not hold")
+		c.set(st, reg, fmt.Sprintf("(store %s %s false)", cur, m))
+	case "RLock", "RUnlock":
+		rreg, ok := c.ghostRegion("rmu")
+		if !ok {
+			return
+		}
+		rc := c.get(st, rreg)
+		if method == "RLock" {
+			c.set(st, rreg, fmt.Sprintf("(store %s %s (+ (select %s %s) 1))", rc, m, rc, m))
+		} else {
+			c.oblige("lock", "runlock-held@"+shortPos(c.curPos), st.g, fmt.Sprintf("(> (select %s %s) 0)", rc, m), "RUnlock of a mutex this function does not read-hold")
+			c.set(st, rreg, fmt.Sprintf("(store %s %s (- (select %s %s) 1))", rc, m, rc, m))
+		}
+	}
 }
